@@ -1,5 +1,6 @@
 import Just.Json
 import Just.Model.Quote
+import Just.Generated.Tables
 open Lean Just
 
 /-- first entry whose key occurs in `k` (the fake shell's matching rule) -/
@@ -143,6 +144,31 @@ def handleImports (j : Json) : Except String Json := do
     | .error e => return Json.mkObj [("error", toJson e)]
     | .ok t => return Json.mkObj [("tree", t), ("loads", toJson log.length), ("depths", toJson depths)]
 
+def handleEvaluate (j : Json) : Except String Json := do
+  let assignsJ ← (← j.getObjVal? "assigns").getArr?
+  let assigns ← assignsJ.toList.mapM (fun a => do
+    let n ← (← a.getArrVal? 0).getStr?
+    let e ← exprFromJson (← a.getArrVal? 1)
+    return (n, e))
+  let overrides : List (String × String) ← fromJson? (← j.getObjVal? "overrides")
+  let bts : List (String × Option String) ← fromJson? (← j.getObjVal? "backticks")
+  let env : List (String × String) ← fromJson? (← j.getObjVal? "env")
+  let ownFirst ← j.getObjValAs? Bool "ownFirst"
+  let ctx : Eval.Ctx := {
+    bt := fun c => match bts.find? (fun e => (c.splitOn e.1).length > 1) with
+      | some (_, o) => o
+      | none => some ""
+    envVar := fun k => env.lookup k
+    parent := fun x => Generated.constantTable.lookup x
+    ownFirst := ownFirst }
+  let (st, r) := Eval.evaluateAssignments ctx assigns overrides 100000
+  let values := assigns.map (fun (n, _) => (n, st.scope.lookup n))
+  let bts := st.log.filterMap (fun e => match e with | .bt c => some c | _ => none)
+  let evals := st.log.filterMap (fun e => match e with | .evalAssign n => some n | _ => none)
+  match r with
+  | .ok () => return Json.mkObj [("values", toJson values), ("backticks", toJson bts), ("evaluated", toJson evals)]
+  | .error e => return Json.mkObj [("error", toJson e), ("backticks", toJson bts), ("evaluated", toJson evals)]
+
 def handle (line : String) : Json :=
   match Json.parse line with
   | .error e => Json.mkObj [("fatal", s!"parse: {e}")]
@@ -162,6 +188,7 @@ def handle (line : String) : Json :=
       | "analyze" => handleAnalyze j
       | "listing" => handleListing j
       | "imports" => handleImports j
+      | "evaluate" => handleEvaluate j
       | "shsplit" => handleShSplit j
       | _ => throw s!"unknown op {op}"
     match r with
